@@ -48,6 +48,7 @@ type vWireMsg struct {
 }
 
 type vStatusEnv struct {
+	rpcSC   *SourceControl // an in-package server object wired to the client-updater queue (for SendAllStatus)
 	ok      bool
 	err     error
 	sub     *zmq4.Socket
@@ -266,8 +267,27 @@ func vRunReplay(c *vCase) {
 	e.fenceNo++
 	fa := fmt.Sprintf("FENCEA%d", os.Getpid()) // constant topics, unique bodies: the set of topics does not grow with the cases
 	fb := fmt.Sprintf("FENCEB%d", os.Getpid())
-	clientMessageChan <- ClientUpdate{fa, e.fenceNo}
-	clientMessageChan <- ClientUpdate{"SENDALL", 0}
+	viaRPC := c.Idx%8 < 4
+	if viaRPC {
+		// the request comes in through the RPC method, at a moment when the updater's queue is full (a burst of status traffic
+		// just before it): it publishes STATUS and then asks for the replay
+		if vSE.rpcSC == nil {
+			sc, stopHB := vNewInPackageControl()
+			close(stopHB) // no heartbeat traffic from this object: only its SendAllStatus method is used
+			vSE.rpcSC = sc
+		}
+		for i := 0; i < 14; i++ {
+			clientMessageChan <- ClientUpdate{fmt.Sprintf("BURST%d", os.Getpid()), fmt.Sprintf("%d.%d", e.fenceNo, i)}
+		}
+		clientMessageChan <- ClientUpdate{fa, e.fenceNo}
+		var dummy string
+		var okay bool
+		vSE.rpcSC.SendAllStatus(&dummy, &okay)
+		c.Cov("replays_requested_through_the_rpc_method", 1)
+	} else {
+		clientMessageChan <- ClientUpdate{fa, e.fenceNo}
+		clientMessageChan <- ClientUpdate{"SENDALL", 0}
+	}
 	clientMessageChan <- ClientUpdate{fb, e.fenceNo}
 	body := fmt.Sprint(e.fenceNo)
 	live, ok := vDrainWireUntil(c, fa, body)
@@ -286,6 +306,25 @@ func vRunReplay(c *vCase) {
 		return
 	}
 	defer func() { e.last[fb] = body }() // FENCE_B was published after the replay: it counts from the next replay on
+	if viaRPC {
+		// the STATUS message the RPC method publishes before it asks for the replay is a live publication (it is not sent when
+		// it equals the previous STATUS): when STATUS occurs twice between the fences, the first one is that
+		n := 0
+		for _, m := range replay {
+			if m.tag == "STATUS" {
+				n++
+			}
+		}
+		if n == 2 {
+			for i, m := range replay {
+				if m.tag == "STATUS" {
+					e.last["STATUS"] = m.body
+					replay = append(append([]vWireMsg(nil), replay[:i]...), replay[i+1:]...)
+					break
+				}
+			}
+		}
+	}
 	seen := map[string]int{}
 	for _, m := range replay {
 		seen[m.tag]++
